@@ -78,6 +78,15 @@ def Tri.fmt (t : Tri) : String :=
 def Tri.fmtAt (t : Tri) (ix : List Nat) : String :=
   " ".intercalate (ix.map fun i => s!"{fmtQ (t.v.getD i 0)}|{fmtQ (t.m.getD i 0)}|{fmtQ (t.c.getD i 0)}")
 
+/-- the harness' own data processors (exact on small integers): null pointer, `image *= c`, the symmetric stencil
+    `out[x] = in[x-1] + 2 in[x] + in[x+1]` along x (missing neighbours count as 0), one whose `apply` fails -/
+inductive ProcKind where
+  | none
+  | scale (c : Int)
+  | smx
+  | fail
+  deriving Repr, Inhabited
+
 structure St where
   -- image grid
   zmin : Int := 0
@@ -111,6 +120,19 @@ structure St where
   imgs : Std.HashMap String (Array Rat) := {}
   dats : Std.HashMap String Tri := {}
   bp : Option (BackProj Rat × BackProj Rat × BackProj Rat) := none
+  -- geometry of a smaller projection-data object passed to projectors set up with the geometry above
+  sMinSeg : Int := 0
+  sMaxSeg : Int := 0
+  sMinTang : Int := 0
+  sMaxTang : Int := 0
+  sAxMin : Array Int := #[]
+  sAxMax : Array Int := #[]
+  sSegOff : Array Nat := #[]
+  sNbins : Nat := 0
+  relS : Std.HashMap (Int × Int × Int × Int × Int) (List (Int × Int)) := {}
+  -- data processors installed in the projectors
+  pre : ProcKind := .none
+  post : ProcKind := .none
 
 def St.nvox (s : St) : Nat := ((s.zmax - s.zmin + 1) * (s.ymax - s.ymin + 1) * (s.xmax - s.xmin + 1)).toNat
 
@@ -140,10 +162,76 @@ def St.S (s : St) : Syms :=
     related := fun v sg => (s.basic.get? (v, sg)).getD [],
     rel := fun v sg k a t => (s.relF.get? (v, sg, k, a, t)).getD [] }
 
-def St.rowsOf (s : St) (tab : Array (Row Rat)) : Bin → Row Rat := fun b => tab.getD (s.idx b) []
-
 def ones (n : Nat) : Array Rat := Array.replicate n 1
 def pat (a : Array Rat) : Array Rat := a.map fun q => if q = 0 then 0 else 1
+
+/-! ### the smaller projection data (`sub`) -/
+
+def St.sAxMinF (s : St) (seg : Int) : Int := s.sAxMin.getD (seg - s.sMinSeg).toNat 0
+def St.sAxMaxF (s : St) (seg : Int) : Int := s.sAxMax.getD (seg - s.sMinSeg).toNat (-1)
+
+def St.subG (s : St) : PDGeom :=
+  { minSeg := s.sMinSeg, maxSeg := s.sMaxSeg, minView := s.minView, maxView := s.maxView, minTang := s.sMinTang,
+    maxTang := s.sMaxTang, minTof := s.minTof, maxTof := s.maxTof, axMin := s.sAxMinF, axMax := s.sAxMaxF }
+
+/-- layout of the smaller projection data (same order of the coordinates) -/
+def St.subIdx (s : St) (b : Bin) : Nat :=
+  let nTof := s.maxTof - s.minTof + 1
+  let nA := s.sAxMaxF b.seg - s.sAxMinF b.seg + 1
+  let nT := s.sMaxTang - s.sMinTang + 1
+  s.sSegOff.getD (b.seg - s.sMinSeg).toNat 0 +
+    (((((b.view - s.minView) * nTof + (b.tof - s.minTof)) * nA + (b.ax - s.sAxMinF b.seg)) * nT + (b.tang - s.sMinTang))).toNat
+
+/-- the symmetries of the set-up geometry, with the related-position lists asked for with the ranges of the smaller data -/
+def St.subS (s : St) : Syms :=
+  { s.S with rel := fun v sg k a t => (s.relS.get? (v, sg, k, a, t)).getD [] }
+
+/-! ### data processors -/
+
+def ProcKind.parse (toks : List String) : ProcKind :=
+  match toks with
+  | ["scale", c] => .scale (I c)
+  | ["smx"] => .smx
+  | ["fail"] => .fail
+  | _ => .none
+
+/-- the processor as a function on the voxel array (x runs fastest) -/
+def ProcKind.fn (k : ProcKind) (nx : Nat) : Option (Proc Rat) :=
+  match k with
+  | .none => Option.none
+  | .scale c => some (procScale ((c : Int) : Rat))
+  | .fail => some fun _ => Option.none
+  | .smx => some fun a => some <| (Array.range a.size).map fun i =>
+      let x := i % nx
+      2 * a.getD i 0 + (if x > 0 then a.getD (i - 1) 0 else 0) + (if x + 1 < nx then a.getD (i + 1) 0 else 0)
+
+/-- the same processor acting on magnitudes (|coefficients|) -/
+def ProcKind.abs (k : ProcKind) : ProcKind :=
+  match k with
+  | .scale c => .scale c.natAbs
+  | k => k
+
+def St.nx (s : St) : Nat := (s.xmax - s.xmin + 1).toNat
+
+/-- the three runs (value, magnitude, number of terms) of the image the forward projector works on after `set_input` -/
+def St.preTri (s : St) (x : Array Rat) : Option (Proc Rat) × Option (Proc Rat) × Option (Proc Rat) :=
+  match s.pre.fn s.nx with
+  | Option.none => (Option.none, some fun _ => some (x.map qabs), some fun _ => some (ones x.size))
+  | some p => (some p, some fun _ => (p x).map (·.map qabs), some fun _ => (p x).map fun a => ones a.size)
+
+/-- `get_output` of the three runs: the processor on the values, the |processor| on the magnitudes, and for the number of
+    terms the |processor| again (all its coefficients are ≥ 1 in absolute value, so this is ≥ the largest count in the
+    stencil) plus 4 for the processor's own float operations -/
+def St.outTri (s : St) (a b c : BackProj Rat) : Option Tri :=
+  match a.getOutputPost (s.post.fn s.nx), b.getOutputPost (s.post.abs.fn s.nx), c.getOutputPost (s.post.abs.fn s.nx) with
+  | some v, some m, some n =>
+    match s.post with
+    | .none => some ⟨v, m, n⟩
+    | _ => some ⟨v, m, n.map (· + 4)⟩
+  | _, _, _ => Option.none
+
+def St.rowsOf (s : St) (tab : Array (Row Rat)) : Bin → Row Rat := fun b => tab.getD (s.idx b) []
+
 
 def parseRowElem (tok : String) : Option (Vox × Rat) :=
   match tok.splitOn ":" with
@@ -174,6 +262,22 @@ def stepLine (st : St) (line : String) : St × String :=
     let st := { st with segOff := offs, nbins := tot, dats := {},
                         rowsV := Array.replicate tot [], rowsM := Array.replicate tot [], rowsC := Array.replicate tot [] }
     (st, s!"ok {tot}")
+  | "sub" :: a :: b :: e :: f :: axs =>
+    -- the geometry of a smaller ProjData: segments a..b, tangential positions e..f, axial ranges per segment
+    let prs := axs.map pair
+    let st := { st with sMinSeg := I a, sMaxSeg := I b, sMinTang := I e, sMaxTang := I f,
+                        sAxMin := (prs.map fun (p : Int × Int) => p.1).toArray,
+                        sAxMax := (prs.map fun (p : Int × Int) => p.2).toArray, relS := {} }
+    let per (p : Int × Int) : Nat :=
+      ((st.maxView - st.minView + 1) * (st.maxTof - st.minTof + 1) * (p.2 - p.1 + 1) * (st.sMaxTang - st.sMinTang + 1)).toNat
+    let (offs, tot) := prs.foldl (fun (acc : Array Nat × Nat) p => (acc.1.push acc.2, acc.2 + per p)) (#[], 0)
+    let st := { st with sSegOff := offs, sNbins := tot }
+    (st, s!"ok {tot}")
+  | "rel2" :: v :: s :: k :: a :: t :: rest =>
+    let l := rest.map pair
+    ({ st with relS := st.relS.insert (I v, I s, I k, I a, I t) l }, toString l.length)
+  | "pre" :: rest => ({ st with pre := ProcKind.parse rest }, "ok")
+  | "post" :: rest => ({ st with post := ProcKind.parse rest }, "ok")
   | ["rowset"] =>
     ({ st with rowsV := Array.replicate st.nbins [], rowsM := Array.replicate st.nbins [], rowsC := Array.replicate st.nbins [] }, "ok")
   | "row" :: s :: v :: a :: t :: k :: elems =>
@@ -205,14 +309,35 @@ def stepLine (st : St) (line : String) : St × String :=
   | ["fwd", out, img, dat, i, n, zero] =>
     match st.imgs.get? img, st.dats.get? dat with
     | some x, some d =>
-      let run (tab : Array (Row Rat)) (x d : Array Rat) : Option (Array Rat) :=
-        fwdSubset (st.rowsOf tab) st.ig st.idx st.G st.S st.cache x d (I i) (I n) (zero == "1")
-      match run st.rowsV x d.v, run st.rowsM (x.map qabs) d.m, run st.rowsC (ones x.size) d.c with
+      let run (tab : Array (Row Rat)) (pre : Option (Proc Rat)) (d : Array Rat) : Option (Array Rat) :=
+        fwdProject (st.rowsOf tab) st.ig st.idx st.G st.S pre st.cache x d (I i) (I n) (zero == "1")
+      let (pv, pm, pc) := st.preTri x
+      match run st.rowsV pv d.v, run st.rowsM pm d.m, run st.rowsC pc d.c with
       | some v, some m, some c =>
         let t : Tri := ⟨v, m, c⟩
         ({ st with dats := st.dats.insert out t }, t.fmt)
       | _, _, _ => (st, "err")
     | _, _ => (st, "bad-name")
+  | ["fwd2", out, img, dat, i, n, zero] =>
+    -- the same projector (same rows, same symmetries) called with the smaller projection data
+    match st.imgs.get? img, st.dats.get? dat with
+    | some x, some d =>
+      let run (tab : Array (Row Rat)) (pre : Option (Proc Rat)) (d : Array Rat) : Option (Array Rat) :=
+        fwdProject (st.rowsOf tab) st.ig st.subIdx st.subG st.subS pre st.cache x d (I i) (I n) (zero == "1")
+      let (pv, pm, pc) := st.preTri x
+      match run st.rowsV pv d.v, run st.rowsM pm d.m, run st.rowsC pc d.c with
+      | some v, some m, some c =>
+        let t : Tri := ⟨v, m, c⟩
+        ({ st with dats := st.dats.insert out t }, t.fmt)
+      | _, _, _ => (st, "err")
+    | _, _ => (st, "bad-name")
+  | ["bsub2", dat, i, n] =>
+    match st.bp, st.dats.get? dat with
+    | some (a, b, c), some y =>
+      let go (tab : Array (Row Rat)) (s : BackProj Rat) (y : Array Rat) : BackProj Rat :=
+        BackProj.backSubset (st.rowsOf tab) st.ig st.subIdx st.subG st.subS st.cache s y (I i) (I n)
+      ({ st with bp := some (go st.rowsV a y.v, go st.rowsM b (y.v.map qabs), go st.rowsC c (pat y.v)) }, "ok")
+    | _, _ => (st, "err")
   | ["fwdg", out, img, dat, v, s, k, a0, a1, t0, t1] =>
     match st.imgs.get? img, st.dats.get? dat with
     | some x, some d =>
@@ -277,17 +402,26 @@ def stepLine (st : St) (line : String) : St × String :=
     | _, _ => (st, "err")
   | ["bout"] =>
     match st.bp with
-    | some (a, b, c) => (st, (Tri.mk a.getOutput b.getOutput c.getOutput).fmt)
+    | some (a, b, c) =>
+      match st.outTri a b c with
+      | some t => (st, t.fmt)
+      | Option.none => (st, "err")
     | none => (st, "err")
   | ["binto", dat, i, n] =>
     match st.bp, st.dats.get? dat with
     | some (a, b, c), some y =>
-      let go (tab : Array (Row Rat)) (s : BackProj Rat) (y : Array Rat) : BackProj Rat × Array Rat :=
-        BackProj.backInto (st.rowsOf tab) st.ig st.idx st.G st.S st.cache s y (I i) (I n)
-      let (a', oa) := go st.rowsV a y.v
-      let (b', ob) := go st.rowsM b (y.v.map qabs)
-      let (c', oc) := go st.rowsC c (pat y.v)
-      ({ st with bp := some (a', b', c') }, (Tri.mk oa ob oc).fmt)
+      let go (tab : Array (Row Rat)) (post : ProcKind) (s : BackProj Rat) (y : Array Rat) : BackProj Rat × Option (Array Rat) :=
+        BackProj.backIntoPost (st.rowsOf tab) st.ig st.idx st.G st.S (post.fn st.nx) st.cache s y (I i) (I n)
+      let (a', oa) := go st.rowsV st.post a y.v
+      let (b', ob) := go st.rowsM st.post.abs b (y.v.map qabs)
+      let (c', oc) := go st.rowsC st.post.abs c (pat y.v)
+      match oa, ob, oc with
+      | some oa, some ob, some oc =>
+        let oc := match st.post with
+          | .none => oc
+          | _ => oc.map (· + 4)
+        ({ st with bp := some (a', b', c') }, (Tri.mk oa ob oc).fmt)
+      | _, _, _ => ({ st with bp := some (a', b', c') }, "err")
     | _, _ => (st, "err")
   | _ => (st, "bad-op")
 
